@@ -41,7 +41,9 @@ def verilog_names(rng, net, style):
 
     def escaped():
         while True:
-            body = rng.choice(("a", "bus", "x", "n1", "3v", "q$")) + rng.choice(("[0]", "[3]", "#1", "+", "", "/z", "[1][2]"))
+            body = rng.choice(("a", "bus", "x", "n1", "3v", "q$")) + rng.choice(("[0]", "[3]", "#1", "+", "", "/z", "[1][2]",
+                                                                                     # every printable character is legal up to the blank
+                                                                                     ",b", ";", "(1)", ")", "=0", "//c", "/*", "\"", "\\y"))
             n = "\\" + body + (str(rng.randrange(9)) if rng.random() < 0.5 else "")
             if n not in used and len(n) > 1:
                 used.add(n)
